@@ -215,7 +215,7 @@ def subst_candidates(n):
                 v = a.targets[0].id
                 if v in params or v in scoped or isinstance(a.value, ast.Name | ast.Constant):
                     continue
-                if any(isinstance(x, ast.NamedExpr | ast.Yield | ast.YieldFrom | ast.Await | ast.Lambda) for x in ast.walk(a.value)):
+                if any(isinstance(x, ast.NamedExpr | ast.Yield | ast.YieldFrom | ast.Await) for x in ast.walk(a.value)):
                     continue
                 if isinstance(a.value, ast.IfExp):
                     continue  # `v = A if c else B; stmt(v)` is split into if/else twins by the normaliser (inline.py), not folded in
